@@ -589,7 +589,8 @@ class Provenance(MutableSequence[Expression]):
         if isinstance(index, int):
             return Expression.from_data(self._data[index], self._units)
         else:
-            return Provenance(units=self._units, data=self._data[index])
+            # A selection is a new container (as for a list): basic slicing alone would return a view of our array.
+            return Provenance(units=self._units, data=np.array(self._data[index]))
 
     @overload
     def __setitem__(self, index: int, value: Expression) -> None: ...
